@@ -275,4 +275,22 @@ theorem control_wrap_loses_cursor :
     s'.vs2 = 0 ∧ cursorFound (copyBody (envFor wCtrl cfg0 5 1 true 0) lines s') 0 4 = false := by
   decide
 
+/-- the same three inputs on the model of the code WITH the two proposed fixes
+    (`proposed_fixes/C11-control-char-width.diff`, `C11-wide-wrap-height.diff`: measure as drawn, wrap
+    non-1-column lines character by character): the cursor is found, inside the window, on its cell -/
+theorem proposed_fixes_recover_cursor :
+    (let W := { wWide with dm := true, exact := true }
+     let lines := ["a世 ".toList]
+     let r := copyBody (envFor W cfg0 2 1 true 0) lines (scrollFor W cfg0 lines 2 1 true 0 2 s0)
+     cursorFound r 0 2 = true ∧ cursorScreen r 0 2 = (0, 0) ∧ cellAt r.cells (0, 0) = [' ']) ∧
+    (let W := { wCtrl with dm := true, exact := true }
+     let lines := ["\t\t\t\tx ".toList]
+     let r := copyBody (envFor W cfg0 5 1 false 0) lines (scrollFor W cfg0 lines 5 1 false 0 4 s0)
+     cursorFound r 0 4 = true ∧ cursorScreen r 0 4 = (0, 4) ∧ cellAt r.cells (0, 4) = ['x']) ∧
+    (let W := { wCtrl with dm := true, exact := true }
+     let lines := ["\t\t\t\tx ".toList]
+     let r := copyBody (envFor W cfg0 5 1 true 0) lines (scrollFor W cfg0 lines 5 1 true 0 4 s0)
+     cursorFound r 0 4 = true ∧ cellAt r.cells (cursorScreen r 0 4) = ['x']) := by
+  decide
+
 end Ptk.C11
